@@ -58,6 +58,7 @@ MAPS = (
     ("at-ends", ["13 = B 60000", "15 = B 31000"]),
     ("two-inside", ["12 = B 99999", "14 = B 200000"]),
     ("before+after", ["5 = B 77000", "16 = B 50000"]),
+    ("sub-microsecond", ["9 = B 10000000000", "14 = B 20000000000"]),
 )
 
 
@@ -69,8 +70,8 @@ def setup():
 
 def plan(tier, seed):
     ress = (192,) if tier == "quick" else (192, 7, 1)
-    maps = MAPS[:5] if tier == "quick" else MAPS
-    shards = [(r, m, lo) for r in ress for m in range(len(maps)) for lo in range(0, len(PATTERNS), 128)]
+    maps = MAPS[:5] + MAPS[6:] if tier == "quick" else MAPS
+    shards = [(r, MAPS.index(m), lo) for r in ress for m in maps for lo in range(0, len(PATTERNS), 128)]
     shards.append(("empty",))
     return dict(
         shards=shards,
